@@ -196,6 +196,14 @@ where
     let l' := l ++ List.replicate (index + 1 - l.length) (List.replicate G.rkhV1Size 0)
     if l'.length > 4 then .error .spsdk else .ok (l'.set index rkh)
 
+/-- any sequence of `RKHTv1.set_rkh(index, rkh)` calls on one table (the calls of `CertBlockV1.set_root_key_hash` in whatever order
+    the API user makes them: signing slot first, descending, repeated, on a parsed table ...) -/
+def setSeq : List Bytes → List (Nat × Bytes) → PyRes (List Bytes)
+  | l, [] => .ok l
+  | l, (i, h) :: ops => do
+    let l' ← setRkh l i h
+    setSeq l' ops
+
 /-- `CertBlockV1.set_root_key_hash(index, certificate)`: SHA-256 of `public_key.export()` -/
 def setRootKeyHash (c : CryptoOps) (l : List Bytes) (index : Nat) (k : Key) : PyRes (List Bytes) := do
   let e ← exportKey k
